@@ -11,7 +11,7 @@ import (
 func init() {
 	Registry["C06"] = C06
 	Metas["C06"] = Meta{
-		Explanation: "Decides, on every abstract path of every cache method (role evaluation), the per-call clauses of C06: (E1) every call of the evicted callback passes the key given to - and the value observed by - a map operation of the same path that actually removed an entry (delete effect on a present entry), never a value captured from an earlier snapshot or the caller's argument; (E2) it is therefore control-dependent on that removal; (E3) in the removing methods (GetAndDelete, Delete, DeleteExpired) every path that removes an entry either found the callback nil or fires it exactly once for that entry, and never more than once per removal; (E4) no other method fires the callback (lazy deletion on read and Compute-deletes are silent); (E5) the callback fired is the one loaded from the settings during this call, and callbacks run outside closures that execute under the bucket lock (C13.L5). NOT decided: exactly-once over concurrent histories (follows from E1-E3 plus the atomicity of the removing operation, C03/C04).",
+		Explanation: "Decides, on every abstract path of every cache method (role evaluation), the per-call clauses of C06: (E1) every call of the evicted callback passes the key given to - and the value observed by - a map operation of the same path that actually removed an entry (delete effect on a present entry), never a value captured from an earlier snapshot or the caller's argument; (E2) it is therefore control-dependent on that removal; (E3) in the removing methods (GetAndDelete, Delete, DeleteExpired) every path that removes an entry either found the callback nil or fires it exactly once for that entry, and never more than once per removal; (E4) no other method fires the callback (lazy deletion on read and Compute-deletes are silent); (E5) the callback fired is the one loaded from the settings during this call, and callbacks run outside closures that execute under the bucket lock (C13.L5); (E6) the janitor removes entries only through the public DeleteExpired (or a pure delegate of it), so E1-E5 cover its removals too (restated from C15.J1/J5). NOT decided: exactly-once over concurrent histories (follows from E1-E3 plus the atomicity of the removing operation, C03/C04).",
 		Rule:        "one obligation per (rule, method); non-trivial = decided from the callback / map-operation events of the evaluated paths",
 		Assumptions: []string{"the map-operation contract (a delete effect on loaded=true removes exactly the observed item)"},
 	}
